@@ -10,6 +10,7 @@
 //! Case formats: lean/EmitModel/Driver/C13.lean.
 
 mod case;
+mod fixtures;
 mod gen;
 mod json;
 mod otlp;
@@ -58,7 +59,9 @@ fn run_mk(line: &str) -> String {
 
 fn scratch_dir() -> std::path::PathBuf {
     static N: AtomicU64 = AtomicU64::new(0);
-    let base = std::env::temp_dir();
+    // the worker fsyncs every batch; a memory-backed directory keeps that cheap when the disk is busy
+    let shm = std::path::Path::new("/dev/shm");
+    let base = if shm.is_dir() { shm.to_path_buf() } else { std::env::temp_dir() };
     base.join(format!("emit-verif-c13-{}-{}", std::process::id(), N.fetch_add(1, Ordering::Relaxed)))
 }
 
